@@ -95,6 +95,7 @@ func (s *Schema) removed(d string) bool {
 
 // gone: removed with #removedType and not declared again
 func (s *Schema) gone(d string) bool { return s.removed(d) && !s.present(d) }
+
 // norm: the denoted type; a contract-qualified spelling (C.U) denotes the same type as the simple one (U)
 func norm(t string) string {
 	return strings.ReplaceAll(t, "C.", "")
